@@ -50,6 +50,17 @@ type Ctx struct {
 	rules     map[string]string
 	ruleOrder []string
 	Notes     []string
+	// alias: while set, obligations recorded under rule X are filed under alias[X] (a rule that is a necessary
+	// condition of several properties is decided by the same code under each of them)
+	alias map[string]string
+}
+
+// As runs f with the rules in m filed under other identifiers (see Ctx.alias).
+func (c *Ctx) As(m map[string]string, f func()) {
+	old := c.alias
+	c.alias = m
+	defer func() { c.alias = old }()
+	f()
 }
 
 func NewCtx(p *Program, prop string) (c *Ctx) {
@@ -63,6 +74,9 @@ func NewCtx(p *Program, prop string) (c *Ctx) {
 // Rule declares a rule with its description and the minimum number of
 // instances confirmed by hand on the reference tree.
 func (c *Ctx) Rule(id, desc string, min int) {
+	if _, aliased := c.alias[id]; aliased {
+		return // declared by the property that borrows the rule
+	}
 	if _, ok := c.rules[id]; !ok {
 		c.ruleOrder = append(c.ruleOrder, id)
 	}
@@ -73,6 +87,9 @@ func (c *Ctx) Rule(id, desc string, min int) {
 func key(rule, construct, slot string) string { return rule + "|" + construct + "|" + slot }
 
 func (c *Ctx) add(rule, construct, slot string, pos token.Pos, st Status, nontrivial bool, format string, a ...any) {
+	if to, ok := c.alias[rule]; ok {
+		rule = to
+	}
 	if _, ok := c.rules[rule]; !ok {
 		panic("undeclared rule " + rule)
 	}
